@@ -8,6 +8,7 @@ from hypothesis import strategies as st
 
 from .. import gens, refs
 from ..runner import Sub
+from . import probes
 from .common import L, Checker, arr
 
 PROPERTY_ID = "C19"
@@ -17,6 +18,7 @@ RULE = ("lines from two points (coordinates <= 1e3, >= 1e-3 apart), from point +
         "geometry of the defining data (point-line distance, orthogonal projection, transformed points, constructed ground "
         "truth for predicates) with residuals <= 1e-9 x data magnitude; predicates that take a tolerance are given one scaled "
         "to the data. Non-trivial: line not through the origin, direction not unit, not axis-aligned.")
+RULE = RULE + probes.RULE_TEXT
 ASSUMPTIONS = ["the intersection predicate ^ / intersects() is not in the statement and is not judged",
                "'different' lines differ by at least 5% of the scale so that no predicate is asked a borderline question",
                "library convention: moment v = w x p for a point p of the line, plane n.x + d = 0"]
@@ -45,6 +47,8 @@ def s_pair():
 
 
 def check_case(case):
+    if case.get("kind") in ("hist", "aug"):
+        return probes.run(case, PROPERTY_ID)
     return {"line": _line, "pair": _pair}[case["kind"]](case)
 
 
@@ -308,6 +312,8 @@ def _pair(case):
 
 
 def classify(case):
+    if case.get("kind") in ("hist", "aug"):
+        return probes.classify(case)
     if case["kind"] == "line":
         p, w = case["p"], case["w"]
         wl = math.sqrt(sum(x * x for x in w))
@@ -323,4 +329,5 @@ def subchecks(tier):
     return [
         Sub("line", strategy=s_line(), n=(300, 10000), shards=(8, 16)),
         Sub("pair", strategy=s_pair(), n=(400, 10000), shards=(6, 16)),
+        *probes.subs(PROPERTY_ID),
     ]
